@@ -220,6 +220,7 @@ struct Loc {
     n: String,
     abs: String,
     under: bool,
+    lex: bool, // the raw path had "..", "." or empty components: lexical resolution may differ from the kernel's
 }
 
 #[derive(Clone, Debug, Default)]
@@ -305,7 +306,7 @@ impl<'a> RunCtx<'a> {
         let norm = lexical_normalize(abs);
         let top = self.world.top.clone();
         if norm == top {
-            return Loc { d: "".into(), n: ".".into(), abs: norm, under: true };
+            return Loc { d: "".into(), n: ".".into(), abs: norm, under: true, lex: false };
         }
         if let Some(rest) = norm.strip_prefix(&(top.clone() + "/")) {
             let (d, n) = match rest.rfind('/') {
@@ -318,10 +319,11 @@ impl<'a> RunCtx<'a> {
                 .collect::<Vec<_>>()
                 .join("/");
             let n = self.canon_name(&n);
-            return Loc { d, n, abs: norm, under: true };
+            let lex = abs.contains("/../") || abs.ends_with("/..") || abs.ends_with("/.") || abs.ends_with('/') || abs.contains("//") || abs.contains("/./");
+            return Loc { d, n, abs: norm, under: true, lex };
         }
         // Is the world top below this path (create_dir_all walking up)?
-        Loc { d: "OUTSIDE".into(), n: norm.clone(), abs: norm, under: false }
+        Loc { d: "OUTSIDE".into(), n: norm.clone(), abs: norm, under: false, lex: false }
     }
 
     fn emit(&mut self, v: Value) {
@@ -933,7 +935,11 @@ fn now_pair() -> Value {
 }
 
 fn loc_json(l: &Loc) -> Value {
-    json!({"d": l.d, "n": l.n})
+    if l.lex {
+        json!({"d": l.d, "n": l.n, "lex": true})
+    } else {
+        json!({"d": l.d, "n": l.n})
+    }
 }
 
 fn spawn_actor(actor: &str, spec: &Value) -> i32 {
